@@ -617,7 +617,8 @@ func (m *Machine) ResolveResources(ctx context.Context, store Store) error {
 
 			val, err = machine.NewValueFromString(res.Typ, metadata)
 			if err != nil {
-				return err
+				// the stored value does not have the declared type: a client error, like an invalid variable
+				return machine.NewErrInvalidVars("invalid value in metadata key %v of account %s for variable $%s: %s", res.Key, addr, res.Name, err)
 			}
 			if val.GetType() == machine.TypeAccount {
 				involvedAccountsMap[machine.Address(idx)] = string(val.(machine.AccountAddress))
